@@ -14,7 +14,11 @@ the SAME kind more than 16 times per worker followed by a probe, descriptor limi
 Oracle on the implementation alone: the server process is alive after the history, valid requests in the history are answered
 (GET /f.txt: 200 and the five bytes of the file), the probe is answered (client half-closing or not; twice in every fourth
 history), and after the probe every request of a table of valid requests is answered as a FRESH server answers the same bytes
-(Date line apart; form echoes as a multiset of lines) - the answer to a valid request does not depend on the history."""
+(Date line apart; form echoes as a multiset of lines) - the answer to a valid request does not depend on the history.
+Second audit pass (audit/C06/AUDIT2.md, `histories2`): what a FEATURE added on this path would hinge on - requests with the headers it
+would read, conversations after the head (keep-alive, Expect, chunked, upgrades, PROXY protocol), variants of a request before / after the
+plain request for the same file, files that change, simultaneous requests, slow readers, storms, connections in the BACKGROUND of a whole
+history (a reader that does not read, idle, half-sent ...).  These histories run on PARALLEL servers at a time, each with its own PRNG stream."""
 import os, socket, struct, time, tempfile, shutil, threading
 from vlib import common as C, realbin as RB, gen_c06 as G
 
@@ -38,6 +42,10 @@ def _odd_table():
             out.append(b'GET /' + two + b' HTTP/1.1\r\nHost: x\r\n\r\n')
             out.append(b'GET /f.txt?q=' + three + b' HTTP/1.1\r\nHost: x\r\n\r\n')
             out.append(b'GET /f.txt HTTP/1.1\r\nHost: x\r\nX-Long: ' + two + b'\r\nReferer: http://x/' + three + b'\r\n\r\n')
+    # special files of the document root (vlib/gen_c06.py write_docroot): every way of naming a named pipe, and a device behind a link
+    for t in (b'/pipe.txt', b'/pipelnk.txt', b'/pipepage', b'/pipepage.html', b'/pd/', b'/pd', b'/pd/index.html', b'/null.txt'):
+        out.append(b'GET ' + t + b' HTTP/1.1\r\nHost: x\r\n\r\n')
+        out.append(b'HEAD ' + t + b' HTTP/1.1\r\nHost: x\r\nRange: bytes=0-1\r\n\r\n')
     return out
 ODD = _odd_table()
 _odd_next = [0]
@@ -189,6 +197,114 @@ def histories(rng, tier):
             hist.append(f'hold/{n - 1}/{rng.choice([8, 20, 40])}/{rng.choice(["fwd", "rev"])}/{rng.below(1 << 16)}')
             hist.append(G.pick_variant(rng.choice(['burst', 'hold', 'probe']), rng, n))
         out.append(dict(n=n, hist=hist, label='held connections and bursts'))
+    for hs in histories2(rng, tier):
+        hs['par'] = True
+        out.append(hs)
+    return out
+
+CORS_ARGS = ['--cors-allow-all=false', '--cors-allow-origins=http://a', '--cors-allow-methods=GET,PUT', '--cors-allow-headers=x-a', '--cors-allow-credentials=true', '--cors-max-age=5']
+
+def histories2(rng, tier):
+    """second audit pass (audit/C06/AUDIT2.md): requests with the headers a new feature would read, conversations (keep-alive, Expect, chunked,
+    upgrades), variants of a request before / after the plain request for the same file, files that change, storms of one simple
+    connection (also under a descriptor limit), histories with connections in the BACKGROUND (key `bg`: each occupies a worker)"""
+    quick = tier == 'quick'
+    out = []
+    nz = len(G.ZOO)
+    # (1) every request of the table once per run on one worker (quick: a third of them again on three); valid requests in between
+    for h, n in enumerate((1, 3) if quick else (1, 2, 3, 4, 8)):
+        order = list(range(nz))
+        if h: rng.shuffle(order)
+        if quick and h: order = order[:nz // 3]
+        hist = ['valid']
+        for k, i in enumerate(order):
+            hist.append(f'zoo/{i}/{"fin" if (k + h) % 2 else "open"}')
+            if k % 12 == 11: hist.append('valid' if k % 24 == 11 else 'valid-open')
+        out.append(dict(n=n, hist=hist, label='requests with headers the server ignores so far'))
+    if not quick:
+        order = list(range(nz)); rng.shuffle(order)
+        out.append(dict(n=2, hist=['valid'] + [f'zoo/{i}/fin' for i in order], args=CORS_ARGS, label='requests with headers the server ignores so far (other CORS configuration)'))
+        out.append(dict(n=2, hist=['valid'] + [f'zoo/{i}/open' for i in order if len(G.ZOO[i][1]) < 3900], alloc=4096, label='requests with headers the server ignores so far (other buffer size)'))
+    # (2) conversations
+    kas = [f'keepalive/{r}/{a}' for r in sorted(G.KA_REQS) for a in G.KA_AFTER]
+    talks = ['talk/' + t for t in sorted(G.TALKS)]
+    for h, n in enumerate((1, 2) if quick else (1, 2, 3, 4, 8)):
+        elems = kas + talks + ['slow-read/' + p for p in G.SLOW_PACES]
+        rng.shuffle(elems)
+        if quick and h: elems = elems[::2]
+        hist = ['valid']
+        for k, e in enumerate(elems):
+            hist.append(e)
+            if k % 15 == 14: hist.append('probe')
+        out.append(dict(n=n, hist=hist, label='conversations: keep-alive, Expect, chunked, upgrades, slow readers'))
+    # (3) the first request for a file on this server is a variant (or follows the plain one); files get other content
+    for h, n in enumerate((1, 2) if quick else (1, 2, 3, 4, 8, 1, 2, 3)):
+        idx = list(range(len(G.COLD))); rng.shuffle(idx)
+        hist = []
+        for k, i in enumerate(idx):
+            hist.append(f'cold/{i}/{"vp" if (k + h) % 2 == 0 else "pv"}')
+            if k % 6 == 5: hist.append(f'rewrite/{k % 4}/{G.REWRITE_HOW[(k // 6 + h) % 3]}')
+            if k % 9 == 8: hist.append(f'create/{k % 4}')
+        out.append(dict(n=n, hist=hist + ['valid'], label='variant of a request first, files that change'))
+    # (4) storms: the same simple connection more often than any counter threshold below 2^8 (thorough: 2^10)
+    kinds = list(G.STORM_KINDS); rng.shuffle(kinds)
+    for h, n in enumerate((1,) if quick else (1, 2, 1)):
+        hist = ['valid']
+        for j, k in enumerate(kinds):
+            cnt = (12 if k in G.STORM_HEAVY else 260 if j < 2 else 130) if quick else (40 if k in G.STORM_HEAVY else 1030 if h == 2 else 260)
+            hist += [f'storm/{k}/{cnt}', 'probe']
+        out.append(dict(n=n, hist=hist, label='storms of one kind of connection'))
+    # (5) the same under a descriptor limit: whatever keeps ONE descriptor per connection on any path runs out of them
+    for n in ((2,) if quick else (1, 2, 3, 4)):
+        hist = ['valid']
+        for k in kinds: hist += [f'storm/{k}/{8 if k in G.STORM_HEAVY else 45}', 'valid-open']
+        hist += [G.pick_variant('keepalive', rng, n) for _ in range(45)] + ['probe'] + [G.pick_variant('talk', rng, n) for _ in range(45)] + ['probe']
+        hist += [f'zoo/{rng.below(nz)}/fin' for _ in range(45)]
+        out.append(dict(n=n, hist=hist, nofile=2 * n + 22, label='storms under a descriptor limit'))
+    # (6) connections in the background of the whole history: each occupies one worker, the others must serve everything
+    def bg_history(n, bg, length):
+        free = n - len(bg)
+        hist = ['valid', 'valid-big', 'valid-open']
+        for _ in range(length):
+            c = rng.below(12)
+            if c == 0: hist.append('probe')
+            elif c == 1: hist.append(f'hold/{free - 1}/{rng.choice([3, 8])}/{rng.choice(["fwd", "rev"])}/{rng.below(1 << 16)}')
+            elif c == 2: hist.append(G.pick_variant('together', rng, free))
+            elif c == 3: hist.append('valid-big' if rng.chance(1, 2) else 'slow-read/steady')
+            elif c == 4: hist.append(G.pick_variant('zoo', rng, free))
+            elif c == 5: hist.append(G.pick_variant(rng.choice(['keepalive', 'talk', 'head-cut', 'length']), rng, free))
+            elif c == 6: hist.append(rng.choice(['faulty', 'early-close', 'rst-after', 'half-sent', 'body-cut-short', 'oversized-malformed']))
+            elif c == 7: hist.append(G.pick_variant('valid-other', rng, free))
+            elif c == 8: hist.append(G.pick_variant('cold', rng, free))
+            else: hist.append(rng.choice(['valid', 'valid-open']))
+        return hist + ['probe']
+    if quick:
+        shapes = [(2, ['reader:close'], 0), (3, ['idle:keep', 'reader:rst'], 0), (4, ['half:finish', 'reader:keep', 'expect:close'], 0)]
+    else:
+        shapes = [(2, ['reader:close'], 0), (2, ['reader:keep'], 0), (2, ['idle:finish'], 1200), (3, ['idle:keep', 'reader:rst'], 2500), (2, ['half:rst'], 5500), (2, ['ka:finish'], 5500)]
+        for _ in range(24):
+            n = rng.choice([2, 3, 4, 8])
+            bg = [f'{rng.choice(G.BG_KINDS)}:{rng.choice(G.BG_ENDS)}' for _ in range(rng.range(1, n - 1))]
+            shapes.append((n, bg, rng.choice([0, 0, 0, 0, 1200, 2500])))
+    for n, bg, ms in shapes:
+        hs = dict(n=n, hist=bg_history(n, bg, 12 if quick else rng.range(8, 40)), bg=bg, label='connections in the background')
+        if ms: hs['bg_ms'] = ms
+        out.append(hs)
+    # (7) one element of the second pass again and again (more often than 16 per worker), then a probe at once
+    for h in range(1 if quick else 12):
+        n = 1 if quick else rng.choice([1, 1, 2])
+        hist = []
+        for k in (['keepalive'] * 3 + ['talk'] * 3 + ['zoo'] * 2 if quick else ['keepalive'] * 4 + ['talk'] * 4 + ['zoo'] * 3):
+            e = G.pick_variant(k, rng, n)
+            hist += [e] * (17 * n + 3) + ['probe']
+        out.append(dict(n=n, hist=hist, label='one kind repeated (second pass)'))
+    # (8) everything mixed
+    allk = [k for k in KINDS if k != 'odd'] + G.NEW_KINDS + G.NEW_KINDS2 * 2       # 'odd' walks through its table with a counter of the run: not side by side
+    for h in range(2 if quick else 60):
+        n = rng.choice([1, 2, 3, 4, 8])
+        length = rng.range(10, 25) if quick else rng.range(5, 40) if rng.chance(2, 3) else rng.range(40, 300)
+        hist = [G.pick_variant(k, rng, n, quick) if k in G.NEW_KINDS + G.NEW_KINDS2 else k for k in (rng.choice(allk) for _ in range(length))]
+        out.append(dict(n=n, hist=hist, label='mixed kinds (second pass)'))
     return out
 
 def run_history(srv, hs, rng, ctx, res=None):
@@ -203,7 +319,7 @@ def run_history(srv, hs, rng, ctx, res=None):
             elif kind in ('faulty', 'odd') and r is None: bad = note
         else:
             r, note = G.run_new(srv, e, ctx)
-            bad = G.judge_answer(e, r, ctx) if kind in G.DEMANDED + ('hold',) else None
+            bad = G.judge_answer(e, r, ctx) if kind in G.DEMANDED + G.SELF_JUDGED else None
             if bad and note: bad = f'{bad} ({note})'
         if res is not None:
             res.evaluations += 1
@@ -212,25 +328,43 @@ def run_history(srv, hs, rng, ctx, res=None):
         if len(unanswered) >= 3 or not srv.alive(): break          # a broken tree: do not wait 10 s for every further element
     return unanswered
 
-def after_history(srv, hs, ctx, index):
+def after_zoo(index):
+    """the requests of the second pass that are asked after history number `index` (a rotating part of the tables)"""
+    return [(index * 7 + k * 41) % len(G.ZOO) for k in range(7)]
+
+def after_history(srv, hs, ctx, index, kept=()):
     """the probe (twice in every fourth history; the client of the request half-closes or not), then every valid request
-    once more: the answers must be those of a fresh server"""
-    n = hs['n']
+    once more: the answers must be those of a fresh server.  kept: background connections that are still open - each occupies
+    a worker, the probe holds that many idle connections less"""
+    n = hs['n'] - len(kept)
     pause = 0.02
-    okp, info = probe(srv, n, half_close=(index % 2 == 0), pause=pause)
-    if okp and index % 4 == 1:
-        okp, info = probe(srv, n, half_close=True, pause=pause)
-        if not okp: info = f'second probe: {info}'
+    try:
+        okp, info = probe(srv, n, half_close=(index % 2 == 0), pause=pause)
+        if okp and index % 4 == 1:
+            okp, info = probe(srv, n, half_close=True, pause=pause)
+            if not okp: info = f'second probe: {info}'
+        if not okp and kept: info = f'{info} (with {len(kept)} background connection(s) still open)'
+    finally:
+        for s in kept:
+            try: s.close()
+            except OSError: pass
     wrong = []
     if okp:
         elems = ['valid-open'] + [f'valid-other/{i}/{"fin" if (i + index) % 2 else "open"}' for i in range(len(G.VALIDS))]
+        elems += [f'zoo/{i}/{"fin" if (i + index) % 2 else "open"}' for i in after_zoo(index)]
+        elems += [f'cold/{(index * 2) % len(G.COLD)}/vp', f'cold/{(index * 2 + 1) % len(G.COLD)}/pv']
         if index % 4 == 0: elems.append('valid-big')
+        asked = []
         for e in elems:
             r, note = G.run_new(srv, e, ctx)
             bad = G.judge_answer(e, r, ctx)
-            if bad: wrong.append((e, bad))
-            if len(wrong) >= 3: break
+            if bad and not wrong: wrong.append(('asked after the probe, before the first wrong answer', asked[:]))     # one of these may be the cause
+            if bad: wrong.append((e, f'{bad} ({note})' if note else bad))
+            asked.append(e + (f' = {G.ZOO[int(e.split("/")[1])][0]}' if e.startswith('zoo/') else ''))
+            if len(wrong) >= 4: break
     return okp, info, wrong
+
+PARALLEL = 4         # histories of the second pass run on that many servers at a time (each has its own PRNG stream and result)
 
 def run_part(res, rng, tier, only=None):
     ok, out = RB.build()
@@ -240,40 +374,88 @@ def run_part(res, rng, tier, only=None):
     try:
         big_sha = G.write_docroot(base)
         hss = histories(rng, tier) if only is None else only
-        fresh = {}
         have_prlimit = G.prlimit_wrap(20) is not None
         if not have_prlimit: res.notes.append('prlimit not found: the histories with a descriptor limit (accept() failing) were not run')
-        hist = n = okp = None
-        failing = 0
-        for index, hs in enumerate(hss):
-            n, hist, alloc, nofile = hs['n'], hs['hist'], hs.get('alloc'), hs.get('nofile')
-            if nofile and not have_prlimit: continue
-            if failing >= 5 and only is None:      # a broken tree (every unanswered request costs its 10 s): five failing histories say it
-                res.count('history skipped after five failing histories'); continue
-            if alloc not in fresh: fresh[alloc] = G.fresh_answers(RB.Server, base, alloc)
-            ctx = dict(n=n, fresh=fresh[alloc], big_sha=big_sha, probe=probe, nofile=nofile)
-            case = {'mode': 'socket', 'N': n, 'history': hist}
-            if alloc: case['alloc'] = alloc
-            if nofile: case['nofile'] = nofile
-            with RB.Server(base, threads=n, alloc=alloc, wrap=(G.prlimit_wrap(nofile) if nofile else None), capture_stdout=False) as srv:
-                unanswered = run_history(srv, hs, rng, ctx, res)
-                alive = srv.alive()
-                okp, info, wrong = after_history(srv, hs, ctx, index) if alive else (False, 'server process ended: ' + str(srv.stop()), [])
-                res.count(f'history N={n} len={"<=40" if len(hist) <= 40 else ">40"}')
-                res.count('history: ' + hs.get('label', ''))
-                res.distinct.add(hash((n, tuple(hist), alloc, nofile)))
-                if not alive:
-                    res.fail('server-died', case, info, None, f'C06: the server process ended during a history of {len(hist)} connections')
-                elif not okp:
-                    res.fail('capacity-lost', case, str(info), None,
-                             f'C06: after a history of {len(hist)} connections an {n}-worker server no longer serves {n} simultaneous connections (N-1 idle + 1 request: no answer)')
-                if unanswered:
-                    res.fail('unanswered-in-history', case, str(unanswered[:3]), None,
-                             'C06: a valid request inside the history got no answer or a wrong one')
-                if not alive or not okp or unanswered or wrong: failing += 1
-                if wrong:
-                    res.fail('wrong-answer-after-history', case, str(wrong[:3]), None,
-                             'C06: after the history a valid request is not answered as a fresh server answers it')
-        if hist is not None: res.sample({'socket_history': hist[:12], 'N': n, 'probe_answered': okp})
+        st = dict(fresh={}, failing=0, last=None, lock=threading.Lock(), base=base, big_sha=big_sha, have_prlimit=have_prlimit, only=only)
+        todo = list(enumerate(hss))
+        first = [(i, hs) for i, hs in todo if only is not None or not hs.get('par')]
+        second = [(i, hs) for i, hs in todo if only is None and hs.get('par')]
+        second.reverse()          # the long ones (repeated, mixed, background) first: the short ones fill the gaps at the end
+        for index, hs in first:
+            _one_history(st, res, rng, index, hs)
+        if second:
+            parts = {}
+            nxt = [0]
+            forks = {index: rng.fork(f'history {index}') for index, _ in second}     # drawn here, in order: the streams do not depend on the threads
+            def work():
+                while True:
+                    with st['lock']:
+                        k = nxt[0]; nxt[0] += 1
+                    if k >= len(second): return
+                    index, hs = second[k]
+                    parts[index] = r = C.Result(res.pid)
+                    try: _one_history(st, r, forks[index], index, hs)
+                    except Exception as e:                      # noqa: reported, not swallowed
+                        r.fail('check-error', {'mode': 'socket', 'N': hs['n'], 'history': hs['hist'][:50]}, f'{type(e).__name__}: {e}', None, 'C06: the check itself failed on this history')
+            ts = [threading.Thread(target=work, daemon=True) for _ in range(min(PARALLEL, len(second)))]
+            for t in ts: t.start()
+            for t in ts: t.join()
+            for index in sorted(parts):
+                r = parts[index]
+                res.evaluations += r.evaluations
+                for k, v in r.dist.items(): res.count(k, v)
+                res.distinct |= r.distinct
+                res.failures += r.failures
+                res.disagreements += r.disagreements
+                res.notes += [x for x in r.notes if x not in res.notes]
+        if st['last'] is not None: res.sample(st['last'])
     finally:
         shutil.rmtree(base, ignore_errors=True)
+
+def _one_history(st, res, rng, index, hs):
+    base, big_sha, fresh, only = st['base'], st['big_sha'], st['fresh'], st['only']
+    index = hs.get('position', index)          # a replayed history: the probe and the requests after it are made as they were made then
+    n, hist, alloc, nofile = hs['n'], hs['hist'], hs.get('alloc'), hs.get('nofile')
+    if nofile and not st['have_prlimit']: return
+    if st['failing'] >= 5 and only is None:      # a broken tree (every unanswered request costs its 10 s): five failing histories say it
+        res.count('history skipped after five failing histories'); return
+    args, bg = hs.get('args') or [], hs.get('bg') or []
+    fkey = (alloc, tuple(args))
+    need = None if fkey == (None, ()) else ({int(e.split('/')[1]) for e in hist if e.startswith('zoo/')} | set(after_zoo(index)))
+    with st['lock']:
+        if fkey not in fresh: fresh[fkey] = G.fresh_answers(RB.Server, base, alloc, args, need)
+        elif need: G.fresh_more(RB.Server, base, fresh[fkey], alloc, args, need)
+    ctx = dict(n=n - len(bg), fresh=fresh[fkey], big_sha=big_sha, probe=probe, nofile=nofile, alloc=alloc)
+    case = {'mode': 'socket', 'N': n, 'history': hist, 'position': index}
+    if alloc: case['alloc'] = alloc
+    if nofile: case['nofile'] = nofile
+    if args: case['args'] = args
+    if bg: case['background'] = bg
+    if hs.get('bg_ms'): case['background_ms'] = hs['bg_ms']
+    with RB.Server(base, threads=n, alloc=alloc, args=args, wrap=(G.prlimit_wrap(nofile) if nofile else None), capture_stdout=False) as srv:
+        bgc, opened = G.bg_open(srv, bg)
+        unanswered = run_history(srv, hs, rng, ctx, res)
+        kept = G.bg_end(srv, bgc, bg, opened, hs.get('bg_ms', 0))
+        alive = srv.alive()
+        okp, info, wrong = after_history(srv, hs, ctx, index, kept) if alive else (False, 'server process ended: ' + str(srv.stop()), [])
+        for s in kept:
+            try: s.close()
+            except OSError: pass
+        res.count(f'history N={n} len={"<=40" if len(hist) <= 40 else ">40"}')
+        res.count('history: ' + hs.get('label', ''))
+        res.distinct.add(hash((n, tuple(hist), alloc, nofile, tuple(args), tuple(bg))))
+        if not alive:
+            res.fail('server-died', case, info, None, f'C06: the server process ended during a history of {len(hist)} connections')
+        elif not okp:
+            res.fail('capacity-lost', case, str(info), None,
+                     f'C06: after a history of {len(hist)} connections an {n}-worker server no longer serves {n} simultaneous connections ({n - 1 - len(kept)} idle'
+                     + (f' + {len(kept)} in the background' if kept else '') + ' + 1 request: no answer)')
+        if unanswered:
+            res.fail('unanswered-in-history', case, str(unanswered[:3]), None,
+                     'C06: a valid request inside the history got no answer or a wrong one')
+        if not alive or not okp or unanswered or wrong:
+            with st['lock']: st['failing'] += 1
+        if wrong:
+            res.fail('wrong-answer-after-history', case, str(wrong[1:4] + wrong[:1]), None,
+                     'C06: after the history a valid request is not answered as a fresh server answers it')
+    st['last'] = {'socket_history': hist[:12], 'N': n, 'probe_answered': okp}
